@@ -7,6 +7,7 @@
  * Commands on stdin, one per line (strings in hex); every output line is flushed.
  *
  *   newdec k=v ...          free the decoder, make a new one (hmm=<argv[1]> unless given)
+ *   addlike <hexnew> <hexold>   decoder_add_word(new, pronunciation of old)
  *   jsgf <hex>              decoder_set_jsgf_string (+ separate compile of the same text = loaded grammar)
  *   fsgfile <path>          fsg_model_readfile, dump, decoder_set_fsg
  *   align <hex>             decoder_set_align_text (loaded grammar = the word chain, built here)
@@ -121,6 +122,21 @@ static void cmd_newdec(char **w, int n)
     if (!have_hmm) config_set_str(cfg, "hmm", hmmdir);
     dec = decoder_init(cfg);
     printf("newdec %s\n", dec ? "ok" : "fail");
+}
+
+/* decoder_add_word(new, pronunciation of an existing word): case variants and homophones */
+static void cmd_addlike(const char *hexnew, const char *hexold)
+{
+    size_t l1, l2;
+    char *nw = (char *)vf_parse_hex(hexnew, &l1), *ow = (char *)vf_parse_hex(hexold, &l2);
+    char *phones = decoder_lookup_word(dec, ow);
+    int rv = -99;
+    if (phones) {
+        rv = decoder_add_word(dec, nw, phones, 1);
+        ckd_free(phones);
+    }
+    printf("addlike %d\n", rv);
+    free(nw); free(ow);
 }
 
 static void cmd_jsgf(const char *hex)
@@ -330,6 +346,7 @@ int main(int argc, char **argv)
         fflush(stdout);
         if (!strcmp(w[0], "newdec")) cmd_newdec(w, n);
         else if (!dec) printf("nodec\n");
+        else if (!strcmp(w[0], "addlike") && n == 3) cmd_addlike(w[1], w[2]);
         else if (!strcmp(w[0], "jsgf") && n == 2) cmd_jsgf(w[1]);
         else if (!strcmp(w[0], "fsgfile") && n == 2) cmd_fsgfile(w[1]);
         else if (!strcmp(w[0], "align") && n == 2) cmd_align(w[1]);
